@@ -171,7 +171,7 @@ class ModuleImports:
             return stmt.get_old_location()[0]
 
     def _remove_imports(self, imports):
-        lines = self.pymodule.source_code.splitlines(True)
+        lines = _split_lines(self.pymodule.source_code)
         after_removing = []
         first_import_line = self._first_import_line()
         last_index = 0
@@ -188,7 +188,7 @@ class ModuleImports:
         return after_removing
 
     def _rewrite_imports(self, imports):
-        lines = self.pymodule.source_code.splitlines(True)
+        lines = _split_lines(self.pymodule.source_code)
         after_rewriting = []
         last_index = 0
         for stmt in imports:
@@ -589,3 +589,13 @@ class _GlobalImportFinder:
             if isinstance(node, ast.ImportFrom):
                 self.visit_from(node, end_line)
         return self.imports
+
+
+def _split_lines(source):
+    # Only "\n" ends a line, as for the line numbers of the AST;
+    # str.splitlines() also splits at form feeds and other separators.
+    lines = [line + "\n" for line in source.split("\n")]
+    lines[-1] = lines[-1][:-1]
+    if not lines[-1]:
+        lines.pop()
+    return lines
